@@ -213,10 +213,11 @@ HasEncHandler(c)   == Cfgs[c].lang = "cpp"
 
 (* The whole pipeline as one operator: [err, out, hnd (a handler produced the token), steps]                *)
 Step(s, t, x) == [s |-> s, t |-> t, x |-> x]
-Recheck(c, k, st, name, hname, fails, hashandler) ==
+Fails(c, k, chk, t) == CASE chk = "pat" -> FailPat(c, k, t) [] chk = "kw" -> FailKw(c, k, t) [] chk = "enc" -> FailEnc(c, k, t)
+Recheck(c, k, st, chk, name, hname, hashandler) ==
     \* st = [err, out, hnd, steps]; one dry-run stage followed, when it raises, by the handler
     IF st.err THEN st
-    ELSE IF ~fails THEN [st EXCEPT !.steps = Append(@, Step(name, st.out, FALSE))]
+    ELSE IF ~Fails(c, k, chk, st.out) THEN [st EXCEPT !.steps = Append(@, Step(name, st.out, FALSE))]
     ELSE LET s1 == Append(st.steps, Step(name, st.out, TRUE))
          IN IF hashandler /\ HandlerApplies(st.out)
             THEN [err |-> FALSE, out |-> HandlerOut(st.out), hnd |-> TRUE, steps |-> Append(s1, Step(hname, HandlerOut(st.out), FALSE))]
@@ -230,14 +231,12 @@ Pipe(c, k, s) ==
         w  == SKw(c, k, e)
         p  == SPat(c, k, w)
         s0 == [err |-> FALSE, out |-> p, hnd |-> FALSE, steps |-> <<Step("enc", e, FALSE), Step("kw", w, FALSE), Step("pat", p, FALSE)>>]
-        s1 == Recheck(c, k, s0, "rpat", "hpat", FailPat(c, k, s0.out), HasStropHandler(c))
-        s2 == Recheck(c, k, s1, "rkw", "hkw", ~s1.err /\ FailKw(c, k, s1.out), HasStropHandler(c))
-        s3 == Recheck(c, k, s2, "renc", "henc", ~s2.err /\ FailEnc(c, k, s2.out), HasEncHandler(c))
-        \* Reverify variant: the same three dry-run checks again on the final token, no handlers
-        v1 == Recheck(c, k, s3, "rpat", "", ~s3.err /\ FailPat(c, k, s3.out), FALSE)
-        v2 == Recheck(c, k, v1, "rkw", "", ~v1.err /\ FailKw(c, k, v1.out), FALSE)
-        v3 == Recheck(c, k, v2, "renc", "", ~v2.err /\ FailEnc(c, k, v2.out), FALSE)
-    IN IF Reverify THEN v3 ELSE s3
+        s1 == Recheck(c, k, s0, "pat", "rpat", "hpat", HasStropHandler(c))
+        s2 == Recheck(c, k, s1, "kw", "rkw", "hkw", HasStropHandler(c))
+        s3 == Recheck(c, k, s2, "enc", "renc", "henc", HasEncHandler(c))
+    IN IF ~Reverify THEN s3
+       ELSE \* Reverify variant: the same three dry-run checks again on the final token, no handlers
+            Recheck(c, k, Recheck(c, k, Recheck(c, k, s3, "pat", "rpat", "", FALSE), "kw", "rkw", "", FALSE), "enc", "renc", "", FALSE)
 
 (* ------------------------------------------------------------------------------------------------------ *)
 (* I-layer as a state machine: one action per stage of the code                                             *)
